@@ -92,6 +92,12 @@ def main():
         print("refusing: /repo working tree is not clean:\n" + o)
         return 2
     det = {}
+    # evidence files describe the unchanged tree: put them back after the run against the patch
+    saved = {}
+    for c in checks:
+        ef = "/verif/evidence/%s.json" % c
+        if os.path.exists(ef):
+            saved[ef] = open(ef).read()
     try:
         rc, o = sh("git -C /repo apply %s" % patch)
         if rc != 0:
@@ -109,6 +115,8 @@ def main():
             det[c] = {"exit": rc, "signatures": sigs[:8], "wall_s": round(time.time() - t0, 1), "tail": o[-400:] if rc not in (0, 1) else ""}
     finally:
         sh("git -C /repo reset -q && git -C /repo checkout -- .")
+        for ef, text in saved.items():
+            open(ef, "w").write(text)
     result["detection"] = det
     result["detected"] = any(d["exit"] == 1 for d in det.values())
     # restore evidence of the unchanged tree is the caller's job (re-run ./check)
